@@ -7,6 +7,12 @@ use crate::obs::xml_attr;
 use crate::prng::Prng;
 
 pub const EVENTS: &[&str] = &["e1", "e2", "go", "x.y", "x", "done.state.p1", "error.execution", "é.z"];
+/// events used in runnable documents (no platform events: a handler of `error.execution` that itself
+/// fails would loop for ever)
+pub const TRIGGERS: &[&str] = &["e1", "e2", "go", "x.y", "x", "é.z"];
+/// runnable documents spend one unit of `budget` per raise / send / eventless transition, so that
+/// every run terminates
+const BUDGET_OPEN: &str = "<if cond=\"budget >= 1\"><assign location=\"budget\" expr=\"budget - 1\"/>";
 const WORDS: &[&str] = &["a", "foo", "Bar_1", "zustand_ä", "日本", "x.y", "€uro", "𝄞clef", "", "q r", "it's", "a\"b"];
 const LABELS: &[&str] = &["", "L", "label ä", "日本語", "a-long-label-with-sixteen+"];
 
@@ -99,7 +105,8 @@ impl<'a> DocGen<'a> {
                 3 => format!("{} * 2", v),
                 4 => "[1,2,3]".to_string(),
                 5 => "{'a':1}".to_string(),
-                _ => v,
+                // never the bare variable: `a = a` blocks for ever on its own mutex (finding P4 of C11)
+                _ => format!("{} + 0", v),
             }
         } else {
             match self.p.below(6) {
@@ -225,7 +232,7 @@ impl<'a> DocGen<'a> {
         self.cnt("ec_send");
         let mut a = String::new();
         if self.behave {
-            a.push_str(&format!(" event=\"{}\"", *self.p.pick(EVENTS)));
+            a.push_str(&format!(" event=\"{}\"", *self.p.pick(TRIGGERS)));
             if self.p.chance(1, 3) {
                 a.push_str(" target=\"#_internal\"");
             }
@@ -270,9 +277,15 @@ impl<'a> DocGen<'a> {
                 a.push_str(&format!(" namelist=\"{} {}\"", xml_attr(&self.ident()), xml_attr(&self.ident())));
             }
         }
+        if self.behave {
+            o.push_str(BUDGET_OPEN);
+        }
         o.push_str(&format!("<send{}>", a));
         self.params_or_content(o, true);
         o.push_str("</send>");
+        if self.behave {
+            o.push_str("</if>");
+        }
     }
 
     pub fn content(&mut self, o: &mut String, depth: u32, in_finalize: bool) {
@@ -282,8 +295,14 @@ impl<'a> DocGen<'a> {
             match k {
                 0 if !in_finalize => {
                     self.cnt("ec_raise");
-                    let e = if self.behave { self.p.pick(EVENTS).to_string() } else { self.text() };
+                    let e = if self.behave { self.p.pick(TRIGGERS).to_string() } else { self.text() };
+                    if self.behave {
+                        o.push_str(BUDGET_OPEN);
+                    }
                     o.push_str(&format!("<raise event=\"{}\"/>", xml_attr(&e)));
+                    if self.behave {
+                        o.push_str("</if>");
+                    }
                 }
                 1 => {
                     self.cnt("ec_log");
@@ -375,7 +394,7 @@ impl<'a> DocGen<'a> {
             for _ in 0..ne {
                 let e = if self.behave || self.p.chance(2, 3) {
                     let suffix = *self.p.pick(&["", "", ".", ".*"]);
-                    format!("{}{}", self.p.pick(EVENTS), suffix)
+                    format!("{}{}", if self.behave { self.p.pick(TRIGGERS) } else { self.p.pick(EVENTS) }, suffix)
                 } else if self.p.chance(1, 3) {
                     "*".to_string()
                 } else {
@@ -390,7 +409,10 @@ impl<'a> DocGen<'a> {
             }
             a.push_str(&format!(" event=\"{}\"", xml_attr(&evs.join(" "))));
         }
-        if self.p.chance(1, 3) || !has_event {
+        if self.behave && !has_event {
+            a.push_str(" cond=\"budget >= 1\"");
+            self.cnt("transition_eventless");
+        } else if self.p.chance(1, 3) || !has_event {
             a.push_str(&format!(" cond=\"{}\"", xml_attr(&self.cond())));
             self.cnt("transition_cond");
         }
@@ -411,6 +433,9 @@ impl<'a> DocGen<'a> {
             _ => {}
         }
         o.push_str(&format!("<transition{}>", a));
+        if self.behave && !has_event {
+            o.push_str("<assign location=\"budget\" expr=\"budget - 1\"/>");
+        }
         self.content(o, 0, false);
         o.push_str("</transition>");
     }
@@ -619,6 +644,9 @@ impl<'a> DocGen<'a> {
         );
         self.vars.clear();
         self.datamodel(&mut o, "v");
+        if self.behave {
+            o.push_str("<datamodel><data id=\"budget\" expr=\"6\"/></datamodel>");
+        }
         if self.p.chance(1, 3) {
             self.cnt("global_script");
             let t = if self.behave { "v0 = 2".to_string() } else { self.plain_text() };
